@@ -560,3 +560,32 @@ func describeWrong(config string) (*cfgBox, int) {
 
 // UseDescribe keeps the function reachable.
 func UseDescribe(s string) (*cfgBox, int) { return describeWrong(s) }
+
+// L-TRUNCCOPY: the configuration is squeezed into eight bytes.
+func squeezeWrong(cfg []byte) []byte {
+	var room [8]byte
+	n := copy(room[:], cfg)
+	return append([]byte(nil), room[:n]...)
+}
+
+// L-FILTERBREAK: everything after the dropped child is lost.
+type kidList struct {
+	Kids []int
+}
+
+func (k *kidList) dropFirstWrong(v int) {
+	kept := make([]int, 0, len(k.Kids))
+	for _, x := range k.Kids {
+		if x == v {
+			break
+		}
+		kept = append(kept, x)
+	}
+	k.Kids = kept
+}
+
+// UseSqueeze keeps the functions reachable.
+func UseSqueeze(b []byte, k *kidList) []byte {
+	k.dropFirstWrong(1)
+	return squeezeWrong(b)
+}
